@@ -576,7 +576,20 @@ struct SrcInstr { time: i32, opcode: u16, mask: Option<i64>, pop: Option<i64>, e
                   /// a difficulty label `{"EN"}:` in front of the statement
                   dlabel: Option<String>,
                   /// this asked instruction is one copy of a difficulty switch (set by expand_script)
-                  from_switch: bool }
+                  from_switch: bool,
+                  /// the statement sits alone in a block `{"<outer>"}: { ... }`
+                  outer: Option<String> }
+
+/// the difficulty byte a label of the form `*` / `*-XY..` asks for: everything, minus the flags after the `-`
+/// (flags E N H L 4 5 6 7 = bits 0..7 in sig.eclm); other label forms are not predicted here
+fn label_mask(l: &str) -> Option<u8> {
+    let rest = l.strip_prefix('*')?;
+    if rest.is_empty() { return Some(0xff); }
+    let flags = rest.strip_prefix('-')?;
+    let mut m = 0xffu8;
+    for c in flags.chars() { m &= !(1u8 << "ENHL4567".find(c)?); }
+    Some(m)
+}
 
 fn blob_text(b: &[u8]) -> String { hex(b) }
 
@@ -592,7 +605,7 @@ fn instr_text(i: &SrcInstr) -> String {
     }
     let lab = i.dlabel.as_ref().map(|l| format!("{{\"{}\"}}: ", l)).unwrap_or_default();
     let call = match &i.alias { Some((n, _)) => format!("{}({});", n, ps.join(", ")), None => format!("ins_{}({});", i.opcode, ps.join(", ")) };
-    format!("{}{}", lab, call)
+    match &i.outer { Some(o) => format!("{{\"{}\"}}: {{ {}{} }}", o, lab, call), None => format!("{}{}", lab, call) }
 }
 
 /// the instructions the compiler must emit for a script: a difficulty switch becomes one copy per difficulty that the
@@ -601,14 +614,14 @@ fn expand_script(l: &[SrcInstr]) -> Vec<SrcInstr> {
     let mut out = vec![];
     for i in l {
         match &i.known {
-            None => out.push(SrcInstr { alias: i.alias.clone(), blob: i.blob.clone(), known: None, dlabel: i.dlabel.clone(), ..*i }),
+            None => out.push(SrcInstr { alias: i.alias.clone(), blob: i.blob.clone(), known: None, dlabel: i.dlabel.clone(), outer: i.outer.clone(), ..*i }),
             Some((a, cases)) => {
                 let picks: Vec<usize> = if cases.len() == 1 { vec![0] } else {
                     match &i.dlabel { None => (0..cases.len()).collect(), Some(l) => "ENHL".chars().enumerate().filter(|(_, c)| l.contains(*c)).map(|(k, _)| k).collect() }
                 };
                 for k in picks {
                     let mut blob = a.to_le_bytes().to_vec(); blob.extend(cases[k].to_le_bytes());
-                    out.push(SrcInstr { alias: None, blob, blob_known: i.opcode == 900, known: None, dlabel: i.dlabel.clone(), from_switch: cases.len() > 1, ..*i });
+                    out.push(SrcInstr { alias: None, blob, blob_known: i.opcode == 900, known: None, dlabel: i.dlabel.clone(), from_switch: cases.len() > 1, outer: None, ..*i });
                 }
             }
         }
@@ -634,7 +647,7 @@ fn asked_of(sf: Fmt, i: &SrcInstr) -> Asked {
 }
 
 fn gen_src_instr(sf: Fmt, rng: &mut Rng, big: bool) -> SrcInstr {
-    let mut i = SrcInstr { time: 0, opcode: rng.range(1, 90) as u16, mask: None, pop: None, extra: None, argc: None, alias: None, blob_known: true, known: None, dlabel: None, from_switch: false,
+    let mut i = SrcInstr { time: 0, opcode: rng.range(1, 90) as u16, mask: None, pop: None, extra: None, argc: None, alias: None, blob_known: true, known: None, dlabel: None, from_switch: false, outer: None,
                            blob: vec![rng.below(256) as u8; if sf == Fmt::Std06 { 12 } else { 4 * rng.below(3) as usize }] };
     match rng.below(12) {
         0 | 1 => i.opcode = *rng.pick(&OPCODES),
@@ -730,13 +743,29 @@ fn gen_switch_instr(sf: Fmt, rng: &mut Rng) -> SrcInstr {
     let base = rng.range(0, 50) as i32 * 10;
     let cases: Vec<i32> = if rng.chance(3, 4) { (0..4).map(|k| base + k + 1).collect() } else { vec![base] };
     let mut i = SrcInstr { time: 0, opcode: 900, mask: None, pop: None, extra: None, argc: None, alias: None, blob_known: false, blob: vec![],
-                           known: Some((rng.range(-3, 300) as i32, cases)), dlabel: None, from_switch: false };
+                           known: Some((rng.range(-3, 300) as i32, cases)), dlabel: None, from_switch: false, outer: None };
     if sf.stores("mask") && rng.chance(2, 3) { i.mask = Some(*rng.pick(&[0i64, 1, 2, 3, 65535])); }
     if sf.stores("pop") && rng.chance(1, 3) { i.pop = Some(*rng.pick(&[1i64, 4, 255])); }
     if sf.stores("argc") && rng.chance(1, 3) { i.argc = Some(*rng.pick(&[1i64, 2, 255])); }
     if rng.chance(1, 3) { i.dlabel = Some(rng.pick(&["EN", "HL", "ENHL", "E", "NH"]).to_string()); }
     i
 }
+/// blob instructions under difficulty labels whose byte is predictable: `*`, `*-<flags>` (several flags after one
+/// `-`), alone or as the only statement of a block that carries another label (inner labels are absolute)
+fn add_labelled_instrs(l: &mut Vec<SrcInstr>, rng: &mut Rng) {
+    for _ in 0..1 + rng.below(3) {
+        let at = rng.below(l.len() as u64 + 1) as usize;
+        let nflags = rng.below(5) as usize;
+        let mut letters: Vec<char> = "ENHL4567".chars().collect();
+        for k in (1..letters.len()).rev() { let j = rng.below(k as u64 + 1) as usize; letters.swap(k, j); }
+        let lab = if nflags == 0 { "*".to_string() } else { format!("*-{}", letters[..nflags].iter().collect::<String>()) };
+        let mut i = SrcInstr { time: if at > 0 { l[at - 1].time } else { 0 }, opcode: rng.range(1, 90) as u16, mask: None, pop: None, extra: None, argc: None, alias: None,
+                               blob_known: true, blob: vec![rng.below(256) as u8; 4], known: None, dlabel: Some(lab), from_switch: false, outer: None };
+        if rng.chance(1, 2) { i.outer = Some(rng.pick(&["EN", "HL", "E", "*-L", "ENH"]).to_string()); }
+        l.insert(at, i);
+    }
+}
+
 /// put one or two such statements into a script (keeping the time labels monotone with their neighbours)
 fn add_switch_instrs(sf: Fmt, l: &mut Vec<SrcInstr>, rng: &mut Rng) {
     for _ in 0..1 + rng.below(2) {
@@ -771,7 +800,15 @@ fn src_case(fmt: Fmt, game: Game, rng: &mut Rng, big: bool) -> SrcCase {
             if rng.chance(1, 10) { let v = *rng.pick(&[0i64, 7, 65536]); meta.push(format!("offset_y: {}", v)); write!(note, " offset_y={}", v).unwrap(); }
             if rng.chance(1, 10) { meta.push("colorkey: 0xff00ff".to_string()); note.push_str(" colorkey"); }
             if rng.chance(1, 12) { meta.push("low_res_scale: true".to_string()); note.push_str(" low_res_scale"); }
-            let sprites = (0..nsprites).map(|k| format!("sp{}: {{x: {}.0, y: 0.0, w: 4.0, h: 4.0}}", k, k)).collect::<Vec<_>>().join(", ");
+            // sprite ids: explicit ones in any order (also decreasing) mixed with un-numbered sprites, which continue
+            // from the previous sprite; all ids distinct
+            let nsprites = if rng.chance(1, 2) { nsprites } else { 2 + rng.below(4) as usize };
+            let mut used: Vec<u32> = vec![]; let mut next = 0u32;
+            let sprites = (0..nsprites).map(|k| {
+                let explicit = if rng.chance(1, 2) || used.contains(&next) { let mut v = *rng.pick(&[10u32, 3, 20, 7, 0, 15, 1, 30]); while used.contains(&v) { v += 1; } Some(v) } else { None };
+                let id = explicit.unwrap_or(next); used.push(id); next = id + 1;
+                match explicit { Some(v) => format!("sp{}: {{id: {}, x: {}.0, y: 0.0, w: 4.0, h: 4.0}}", k, v, k), None => format!("sp{}: {{x: {}.0, y: 0.0, w: 4.0, h: 4.0}}", k, k) }
+            }).collect::<Vec<_>>().join(", ");
             meta.push(format!("sprites: {{{}}}", sprites));
             writeln!(text, "entry {{ {} }}", meta.join(", ")).unwrap();
             let alias = if fmt == Fmt::AnmV2 && rng.chance(1, 5) {
@@ -816,7 +853,7 @@ fn src_case(fmt: Fmt, game: Game, rng: &mut Rng, big: bool) -> SrcCase {
             let (ef, tf) = olde_fmts_game(game);
             let tl = gen_src_script(tf, rng, false);
             let mut sub = gen_src_script(ef, rng, big);
-            if rng.chance(2, 3) { text.push_str(&sig_mapfile()); add_switch_instrs(ef, &mut sub, rng); }
+            if rng.chance(2, 3) { text.push_str(&sig_mapfile()); add_switch_instrs(ef, &mut sub, rng); if ef != Fmt::Std06 { add_labelled_instrs(&mut sub, rng); } }
             writeln!(text, "script timeline0 {{ {} }}", body_text(&tl)).unwrap();
             writeln!(text, "void sub0() {{ {} }}", body_text(&sub)).unwrap();
             scripts.push((ef, sub));
@@ -830,7 +867,7 @@ fn src_case(fmt: Fmt, game: Game, rng: &mut Rng, big: bool) -> SrcCase {
             let n = 1 + rng.below(2) as usize;
             for k in 0..n {
                 let mut l = gen_src_script(fmt, rng, big && k == 0);
-                if with_sw && k == 0 { add_switch_instrs(fmt, &mut l, rng); }
+                if with_sw && k == 0 { add_switch_instrs(fmt, &mut l, rng); add_labelled_instrs(&mut l, rng); }
                 writeln!(text, "void f{}() {{ {} }}", k, body_text(&l)).unwrap();
                 scripts.push((fmt, l));
             }
@@ -879,7 +916,11 @@ fn parse_body(body: &str) -> Option<Vec<SrcInstr>> {
     let mut time = 0i32;
     let mut pending_label: Option<String> = None;
     let mut rest = body.trim_start();
+    let mut outer: Option<String> = None;
     while !rest.is_empty() {
+        // a block `{"L"}: { ... }` of the generator's subset: its label applies to statements without their own
+        if rest.starts_with('{') && !rest.starts_with("{\"") { outer = pending_label.take(); rest = rest[1..].trim_start(); continue; }
+        if rest.starts_with('}') { outer = None; rest = rest[1..].trim_start(); continue; }
         // time label
         let lab_end = rest.find(':');
         let stmt_end = rest.find(';');
@@ -902,7 +943,7 @@ fn parse_body(body: &str) -> Option<Vec<SrcInstr>> {
         let name = stmt[..op].trim();
         let args = stmt[op + 1..stmt.rfind(')')?].trim();
         let opcode: u16 = name.strip_prefix("ins_")?.parse().ok()?;
-        let mut i = SrcInstr { time, opcode, mask: None, pop: None, extra: None, argc: None, blob: vec![], alias: None, blob_known: false, known: None, dlabel: pending_label.take(), from_switch: false };
+        let mut i = SrcInstr { time, opcode, mask: None, pop: None, extra: None, argc: None, blob: vec![], alias: None, blob_known: false, known: None, dlabel: pending_label.take().or(outer.clone()), from_switch: false, outer: None };
         let mut plain: Vec<Vec<i32>> = vec![];
         for a in args.split(',').map(|a| a.trim()).filter(|a| !a.is_empty()) {
             let (k, v) = a.split_once('=').map(|(k, v)| (k.trim(), v.trim())).unwrap_or((a, ""));
@@ -1032,6 +1073,7 @@ fn check_source(fmt: Fmt, game: Game, text: &str, asked: Option<&[(Fmt, Vec<SrcI
         stats.bump(&format!("src-{}:no-inprocess-compile", fmt.name()));
     }
     check_header_strings(fmt, text, back_file, &short_input);
+    check_sprite_ids(fmt, text, back_file, &short_input);
     // (b) against what the source asked for
     let parsed;
     let asked = match asked { Some(a) => Some(a), None => { parsed = parse_asked(fmt, game, text); parsed.as_deref() } };
@@ -1048,6 +1090,7 @@ fn check_source(fmt: Fmt, game: Game, text: &str, asked: Option<&[(Fmt, Vec<SrcI
                 if a.time != c.time as i64 { diffs.push(("time", a.time, c.time as i64)); }
                 if a.opcode != c.opcode as i64 { diffs.push(("opcode", a.opcode, c.opcode as i64)); }
                 if w.blob_known && a.blob != c.args_blob { diffs.push(("size", a.blob.len() as i64, c.args_blob.len() as i64)); }
+                if let Some(m) = w.dlabel.as_deref().and_then(label_mask) { if sf.stores("diff") && m != c.difficulty { diffs.push(("difficulty-label", m as i64, c.difficulty as i64)); } }
                 if w.mask.is_some() && a.mask != c.param_mask as i64 { diffs.push((if sf.stores("mask") { "pseudo-mask" } else { "mask-unstored" }, a.mask, c.param_mask as i64)); }
                 if w.pop.is_some() && a.pop != c.pop as i64 { diffs.push((if sf.stores("pop") { "pseudo-pop" } else { "pop-unstored" }, a.pop, c.pop as i64)); }
                 if w.extra.is_some() && a.extra != c.extra_arg.unwrap_or(0) as i64 { diffs.push((if sf.stores("extra") { "pseudo-arg0" } else { "extra-unstored" }, a.extra, c.extra_arg.unwrap_or(0) as i64)); }
@@ -1103,6 +1146,30 @@ fn emit_string_list_cases(fmt: Fmt, text: &str, bytes: &[u8]) {
     let at = 0x2c + anim_len + 8;
     if at <= bytes.len() {
         println!("SCRIPT\t(KStrList {} [] {})\tsrc ecl10 ecli list {:?}", ee, rle(&bytes[at..bytes.len().min(at + 600)]), ecli);
+    }
+}
+
+/// exit 0 => the sprites of the written file have the ids the source defines: the explicit `id:`, else previous + 1
+/// (first entry of the generator's subset: `sprites: {name: {id: N, x: ..}, name: {x: ..}}`)
+fn check_sprite_ids(fmt: Fmt, text: &str, back: &FileBox, input: &str) {
+    let FileBox::Anm(f) = back else { return };
+    let Some(at) = text.find("sprites: {") else { return };
+    let body = &text[at + 10..];
+    // up to the brace that closes the sprite table
+    let mut depth = 1; let mut end = body.len();
+    for (j, c) in body.char_indices() { if c == '{' { depth += 1; } else if c == '}' { depth -= 1; if depth == 0 { end = j; break; } } }
+    let mut asked: Vec<u32> = vec![]; let mut next = 0u32;
+    for part in body[..end].split('}') {
+        let Some(open) = part.find('{') else { continue };
+        let fields = &part[open + 1..];
+        let id = fields.split(',').filter_map(|kv| kv.trim().strip_prefix("id:").and_then(|v| v.trim().parse::<u32>().ok())).next();
+        let id = id.unwrap_or(next); asked.push(id); next = id.wrapping_add(1);
+    }
+    let Some(e) = f.entries.first() else { return };
+    let mut got: Vec<u32> = vec![]; let mut next = 0u32;
+    for sp in e.sprites.values() { let id = sp.id.unwrap_or(next); got.push(id); next = id.wrapping_add(1); }
+    if asked != got {
+        println!("ORACLE-FAIL\tc03 format={} field=sprite-id\tthe source defines sprite ids {:?}, the written file reads back {:?}\t{}", fmt.name(), asked, got, input);
     }
 }
 
